@@ -116,7 +116,7 @@ def leading_group_then_operator(text):
 def check(case):
     rng = random.Random(case["seed"])
     # ordinary names, among them names that merely START like a mnemonic (jmp_table, and_mask ...), an upper-case one, one with digits
-    defs = {"sa": 5, "sb": 0x1234, "sc": 0xFF, "jmp_table": 0x1234, "and_mask": 0x0F, "inc_step": 2, "Bit_Flag": 0x80, "sec2": 7, "ldax": 9}
+    defs = {"sa": 5, "sb": 0x1234, "sc": 0xFF, "jmp_table": 0x1234, "and_mask": 0x0F, "inc_step": 2, "Bit_Flag": 0x80, "sec2": 7, "ldax": 9, "_mask": 0x30, "_m2": 0x10, "__x": 3}
     tree = normalise(gen_tree(rng, case["depth"], defs))
     text = text_of(tree, rng, case["spacing"])
     env = dict(defs)
